@@ -455,6 +455,68 @@ pub fn run_source(src: &str, opts: RunOpts) -> Obs {
     obs
 }
 
+/// Like [`run_source`] for several modes, but lexing, parsing and resolving happen once and
+/// every mode runs on the same AST, facts and plan (used for very large programs, where the
+/// front end dominates). Must be called inside an isolated child.
+pub fn run_source_shared(src: &str, modes: &[RunOpts]) -> Vec<Obs> {
+    let first = modes[0];
+    let arena = Arena::new(first.persistent_cap).expect("reserve persistent arena");
+    let empty = || Obs {
+        stage: Stage::Ran,
+        front: Vec::new(),
+        output: Vec::new(),
+        runtime: Vec::new(),
+        counters: Counters::default(),
+        plan: None,
+        executed: Vec::new(),
+        skipped: Vec::new(),
+        unreachable: Vec::new(),
+    };
+    let lexer = Lexer::new(src, &arena);
+    let mut parser = Parser::new(lexer, &arena);
+    let (root, parse_errors) = parser.parse_program();
+    if !parse_errors.diagnostics.is_empty() {
+        let mut o = empty();
+        o.stage = Stage::ParseRejected;
+        o.front = collect_diags(parse_errors);
+        return modes.iter().map(|_| o.clone()).collect();
+    }
+    let mut resolver = Resolver::new(&arena);
+    resolver.resolve(root);
+    let mut base = empty();
+    base.front = collect_diags(&resolver.errors);
+    if resolver.errors.has_errors() {
+        base.stage = Stage::ResolveRejected;
+        return modes.iter().map(|_| base.clone()).collect();
+    }
+    base.plan = resolver
+        .optimization_plan
+        .as_ref()
+        .map(|p| (p.removable_stmts.len() as u32, p.removable_function_defs.len() as u32));
+    let mut out = Vec::new();
+    for opts in modes {
+        let frame = Arena::new(opts.frame_cap).expect("reserve frame arena");
+        let mut obs = base.clone();
+        let mut runtime =
+            Runtime::new_with_host_policy(&arena, if opts.mode.frame { Some(&frame) } else { None }, opts.policy);
+        naijascript::verif::reset(false);
+        let plan = if opts.mode.plan { resolver.optimization_plan.as_ref() } else { None };
+        runtime.run_with_analysis(root, &resolver.facts, plan);
+        let c = naijascript::verif::counters();
+        obs.counters = Counters {
+            frame_resets: c.frame_resets,
+            pool_returns: c.pool_returns,
+            promotions: c.promotions,
+            skipped_stmts: c.skipped_stmts,
+            pruned_function_defs: c.pruned_function_defs,
+        };
+        obs.output = runtime.output.iter().map(NVal::from_value).collect();
+        obs.runtime = collect_diags(&runtime.errors);
+        out.push(obs);
+    }
+    out
+}
+
 /// Result of running one program in one mode inside an isolated child.
 #[derive(Debug, Clone)]
 pub enum ModeResult {
